@@ -578,6 +578,11 @@ def recovery_script(r, idx, fate_vec=None):
         cfg[side]["idle_ms"] = 30000
         cfg[side].pop("keep_alive_ms", None)
         cfg[side]["cc"] = r.choice(CC_MENU)
+        if r.random() < 0.25:
+            cfg[side]["ack_freq"] = True
+            cfg[side]["ack_freq_threshold"] = r.choice([0, 1, 2, 5, 20])
+            if r.random() < 0.5:
+                cfg[side]["ack_freq_max_delay_ms"] = r.choice([1, 3, 10, 60, 200])
     if clean:
         cfg["latency_us"] = r.choice([1000, 10000, 80000])
     elif fate_vec is not None:
@@ -660,6 +665,12 @@ def ackdelay_script(r, idx, fate_vec=None):
     cfg = base_cfg(r, server={"idle_ms": 30000}, client={"idle_ms": 30000, "mtud": False})
     cfg["sf_size"] = r.choice([1500, 3000, 5000])
     cfg["new_tokens"] = r.choice([0, 2])
+    if r.random() < 0.4:
+        # the server asks for another acknowledgement rhythm (ACK_FREQUENCY): threshold, delay
+        cfg["server"]["ack_freq"] = True
+        cfg["server"]["ack_freq_threshold"] = r.choice([0, 1, 3, 10])
+        if r.random() < 0.6:
+            cfg["server"]["ack_freq_max_delay_ms"] = r.choice([1, 3, 10, 60, 200])
     if fate_vec is not None:
         half = len(fate_vec) // 2
         cfg["fates_c2s"] = ["ok"] * r.choice([0, 1, 2]) + [FATE_MAP[f] for f in fate_vec[:half]]
